@@ -166,6 +166,8 @@ func GenScenario(r *rand.Rand, p Profile) *Scenario {
 	}
 	burst := r.IntN(3) == 0
 	t0 := arrival()
+	// callers may be sibling spans of one upstream request (same trace id, distinct contexts)
+	sameTrace := p.Tracing && r.IntN(3) == 0
 	for cid := 0; cid < nCallers; cid++ {
 		nReq := 1 + r.IntN(3)
 		at := arrival()
@@ -177,6 +179,9 @@ func GenScenario(r *rand.Rand, p Profile) *Scenario {
 			spec := &ReqSpec{Caller: cid, Req: q, At: at, CtxGroup: -1, CancelAt: -1, Deadline: -1}
 			if share {
 				spec.CtxGroup = 0
+			}
+			if sameTrace {
+				spec.TraceGroup = 1 + r.IntN(2)
 			}
 			spec.Res = genShape(r, sc.Sig, itemsFor())
 			if len(c.MetadataKeys) > 0 {
